@@ -15,6 +15,7 @@ SOURCES = ["own", "own", "ref", "ref-notrail", "ref-nolen"]
 
 
 SCALED = [False]
+PARENT_LIKE_NAME_P = 0.0     # raised to 0.15 once the Lean findRoot model mirrors the repaired code
 
 
 import contextlib
@@ -76,6 +77,8 @@ def make_case(rng, tier, damage, max_damage=4):
     case = {"files": [(rel, b.token()) for rel, b in files], "pl": pl, "version": version,
             "single": single, "source": source, "creator": rng.choice(creator),
             "via_parent": rng.random() < 0.5, "damage": []}
+    if rng.random() < PARENT_LIKE_NAME_P:
+        case["parent_like_name"] = True
     if version == 1 and source == "ref" and not single and rng.random() < 0.5:
         order = [rel for rel, _ in files]
         rng.shuffle(order)
@@ -216,9 +219,13 @@ def build(box, case):
     """Materialise payload + metafile. Returns (metafile path, content root, parent, name,
     files, raw metafile bytes)."""
     files = [(rel, cr.blob_from_token(t)) for rel, t in case["files"]]
-    parent = os.path.join(box, "parent")
-    os.makedirs(parent)
     single, version, pl = case["single"], case["version"], case["pl"]
+    pname = "parent"
+    if case.get("parent_like_name"):
+        # the parent directory happens to carry the torrent's own name (album/album/...)
+        pname = files[0][0].split("/")[-1] if single else "payload"
+    parent = os.path.join(box, pname)
+    os.makedirs(parent)
     if single:
         name = files[0][0].split("/")[-1]
         write_tree(parent, [(name, files[0][1].bytes())])
